@@ -430,15 +430,15 @@ def explore(case, seed, n, res, stats, tier):
         fac_e = Facade(pyrandom.Random(sub(seed, "est", pe)), 0.0)
         rec_e = Recorder(fac_e, max_attempts=budget // 2)
         import io, contextlib
-        est = {}
+        est = None
         try:
             with rec_e, contextlib.redirect_stdout(io.StringIO()):
                 est = S.estimate(PrologString(text), n=max(30, nn // 2), propagate_evidence=pe)
         except TooManyAttempts:
-            pass
+            est = None  # gave up before estimate() returned: nothing to judge
         res["evaluations"] += 1
         ne = sum(1 for a in rec_e.attempts if a["accepted"])
-        if ne >= 50:
+        if est is not None and ne >= 50:
             eps = hoeffding(ne)
             estd = {str(k).replace(" ", ""): v for k, v in est.items()}
             for name in refd["names"]:
